@@ -260,6 +260,29 @@ def case_worker_death():
     return rc == 0 and out in ("raised", "returned 4"), f"worker exits before its marker -> {out}"
 
 
+def case_add_variable_shared_domains():
+    """x in [0,2], y = x+1 a view of the same shared domain, z in [0,1]; y + z <= 2.  Written through the constructor and written
+    with add_variable / add_variables the model must have the same three solutions (the pinned tree counted variables instead of
+    shared domains in add_variable: the solver could not even be built)."""
+    from nucs.problems.problem import Problem
+    from nucs.propagators.propagators import ALG_AFFINE_LEQ
+    from nucs.solvers.backtrack_solver import BacktrackSolver
+
+    def sols(p):
+        p.add_propagator(([1, 2], ALG_AFFINE_LEQ, [1, 1, 2]))
+        return sorted(tuple(int(v) for v in x) for x in BacktrackSolver(p, log_level="ERROR").solve())
+
+    a = sols(Problem([(0, 2), (0, 1)], [0, 0, 1], [0, 1, 0]))
+    p1 = Problem([(0, 2)], [0, 0], [0, 1])
+    p1.add_variable((0, 1))
+    b = sols(p1)
+    p2 = Problem([(0, 2)], [0, 0], [0, 1])
+    p2.add_variables([(0, 1)])
+    c = sols(p2)
+    exp = [(0, 1, 0), (0, 1, 1), (1, 2, 0)]
+    return a == exp and b == exp and c == exp, f"constructor {a}, add_variable {b}, add_variables {c}"
+
+
 CASES = {
     "affine_eq_ground": (case_affine_eq_ground, ["C06", "C01"]),
     "affine_zero_coeffs": (case_affine_zero_coeffs, ["C06"]),
@@ -275,6 +298,7 @@ CASES = {
     "stack_pointer_wrap": (case_stack_pointer_wrap, ["C19"]),
     "index_width": (case_index_width, ["C19"]),
     "worker_death": (case_worker_death, ["C18"]),
+    "add_variable_shared_domains": (case_add_variable_shared_domains, ["C13", "C01"]),
 }
 
 
